@@ -277,6 +277,9 @@ def ecrun(job):
         m.pid.pid_5 = 'x' + C + 'y'
         m.nk1 = 'NK1' + ec['FIELD'] * 2 + 'n' + C + 'm' + R + 'o' + S + 'p'      # a whole segment, with a repetition
         m.add_segment('PV1').pv1_2 = 'I'
+        if v != '2.1':
+            # a whole group given as text: it is split by the message's characters like everything else (D44)
+            m.adt_a01_insurance = 'IN1' + ec['FIELD'] + '1' + ec['FIELD'] + 'i' + C + 'j' + S + 'k'
         er7 = m.to_er7()
         got = m.encoding_chars
         gs = got['FIELD'] + got['COMPONENT'] + got['SUBCOMPONENT'] + got['REPETITION'] + got['ESCAPE'] + got.get('TRUNCATION', '')
